@@ -141,6 +141,17 @@ func (ex *Exec) StrLit(s string) string {
 	return name
 }
 
+// Literals lists (constant name, text) of the string literals of this context.
+func (ex *Exec) Literals() [][2]string {
+	ex.mu.Lock()
+	defer ex.mu.Unlock()
+	out := [][2]string{{"emptystr", ""}}
+	for _, s := range ex.litOrder {
+		out = append(out, [2]string{ex.lits[s], s})
+	}
+	return out
+}
+
 func (ex *Exec) literalAxioms() string {
 	ex.mu.Lock()
 	defer ex.mu.Unlock()
